@@ -5,10 +5,10 @@ use crate::core::*;
 use crate::props::bddutil::*;
 use crate::tt::{self, TT};
 use crate::walk::*;
-use rsdd::repr::{DDNNFPtr, VarLabel, WmcParams};
+use rsdd::repr::{DDNNFPtr, WmcParams};
 use rsdd::util::semirings::RealSemiring;
 use serde_json::{json, Value};
-use std::collections::HashMap;
+
 
 const W: [(u32, u32); 7] = [(1, 1), (1, 2), (2, 3), (3, 5), (5, 2), (0, 3), (2, 0)];
 
@@ -185,13 +185,11 @@ fn check_case<'a>(b: &'a AllBuilder<'a>, c: &Case, params: &[(Vec<(u32, u32)>, W
 fn make_params(nv: usize, tier: Tier) -> Vec<(Vec<(u32, u32)>, WmcParams<RealSemiring>)> {
     weight_sets(nv, tier)
         .into_iter()
-        .map(|w| {
-            let m: HashMap<VarLabel, (RealSemiring, RealSemiring)> = w
-                .iter()
-                .enumerate()
-                .map(|(v, &(l, h))| (VarLabel::new(v as u64), (RealSemiring(l as f64), RealSemiring(h as f64))))
-                .collect();
-            (w, WmcParams::new(m))
+        .enumerate()
+        .map(|(k, w)| {
+            // table k is reached through construction history k (see wparams.rs)
+            let tw: Vec<(RealSemiring, RealSemiring)> = w.iter().map(|&(l, h)| (RealSemiring(l as f64), RealSemiring(h as f64))).collect();
+            (w, crate::props::wparams::build_params(&tw, k))
         })
         .collect()
 }
